@@ -189,7 +189,7 @@ def run_c09(prop, prop_file, tier, seed):
     proved = common.prove(res, prop, prop_file, EXTRACT)
     drv = common.build_harness("c01")
     rng = random.Random(seed)
-    n = (2500 if tier == "quick" else 20000) * (2 if not proved else 1)
+    n = (15000 if tier == "quick" else 60000) * (2 if not proved else 1)
     cases = c09_cases(rng, n)
     items, index = [], []
     for ci, c in enumerate(cases):
@@ -542,7 +542,7 @@ def run_c08(prop, prop_file, tier, seed):
     proved = common.prove(res, prop, prop_file, EXTRACT)
     drv = common.build_harness("c01")
     rng = random.Random(seed)
-    n = (3000 if tier == "quick" else 30000) * (2 if not proved else 1)
+    n = (20000 if tier == "quick" else 90000) * (2 if not proved else 1)
     items, meta = [], []
     for i in range(n):
         cb = rng.random() < 0.4
@@ -799,7 +799,7 @@ def run_c10(prop, prop_file, tier, seed):
     drv = common.build_harness("c01")
     orc = common.build_oracle("sem", ["sem_model"])
     rng = random.Random(seed)
-    n = (4000 if tier == "quick" else 40000) * (2 if not proved else 1)
+    n = (25000 if tier == "quick" else 100000) * (2 if not proved else 1)
     items, meta = [], []
     for i in range(n):
         cb = rng.random() < 0.5
@@ -825,7 +825,7 @@ def run_c10(prop, prop_file, tier, seed):
     jv, cv = both_modes(drv, items, rng)
     # duplicate / equivalent keys in CBOR maps: compared with the model (every physical pair must be accounted for)
     dup_pairs = []
-    for i in range(2500 if tier == "quick" else 8000):
+    for i in range(10000 if tier == "quick" else 30000):
         key = rng.choice([("txt", "a"), ("int", 1), ("txt", "k1")])
         vt_ = rng.choice([("ref", "int"), ("ref", "tstr"), ("ref", "any"), ("ref", "any")])
         members = ("ent", ("lit", key), True, vt_)
@@ -869,7 +869,7 @@ def run_c10(prop, prop_file, tier, seed):
                                           {"mode": mode, "what": what, "schema": S.cddl(), "schema2": S2.cddl(), "doc": ast.val_sexp(d), "doc2": ast.val_sexp(d2),
                                            "doc_cbor": ast.val_cbor(d).hex(), "doc2_cbor": ast.val_cbor(d2).hex(), "impl": [a, x]})
     # member-order independence outside the model fragment (enumeration keys, array and map keys)
-    fam = c10_order_family(rng, 150 if tier == "quick" else 3000)
+    fam = c10_order_family(rng, 1000 if tier == "quick" else 6000)
     fitems = [(t, d) for texts, d, _, _ in fam for t in texts]
     fj, fc = both_modes(drv, fitems, rng)
     pos = 0
@@ -1088,13 +1088,13 @@ def run_c04(prop, prop_file, tier, seed):
     proved = common.prove(res, prop, prop_file, EXTRACT)
     drv = common.build_harness("c01")
     rng = random.Random(seed)
-    n = (5000 if tier == "quick" else 50000) * (2 if not proved else 1)
+    n = (30000 if tier == "quick" else 120000) * (2 if not proved else 1)
     items, meta = [], []
     for text, docs in SHARED_EXTRAS:
         for d in docs:
             items.append((text, d))
             meta.append(("shared-extra", None, text, d))
-    for text, d in extras_cases(rng, 400 if tier == "quick" else 6000):
+    for text, d in extras_cases(rng, 2500 if tier == "quick" else 12000):
         items.append((text, d))
         meta.append(("shared-extra-generated", None, text, d))
     for i in range(n):
